@@ -25,6 +25,10 @@ EXPLANATION = (
     "rule automaton on every abstract token sequence; (O9.8) the length ladder: fixed format needs one exact length >= "
     "1, other formats refuse negative limits. Completeness against an external catalogue of defects is not a shape of "
     "the code and is not claimed."
+    " Added in rounds 6 and 7: (O9.7c) a DistinctCount rule refers to no name besides the counted field (real"
+    " compile / eval on concrete rules, stand-ins for exit()). (O9.12) range descriptions with a second ellipsis"
+    " in an item or without any item are refused (C01's constructor table in refusal mode). (O9.13) every valid"
+    " value of every data format property is the same value with blanks around it."
 )
 ASSUMPTIONS = ["field and check constructors reject malformed rules as decided under C01, C02, C05"]
 
